@@ -66,6 +66,7 @@ class PgpWorld(EnvelopeWorld):
         self.n_sim = len(self.keys)
         self.fs = SimFS(run)
         self.patch.set(self.lib.common, "open", self.fs.open)
+        self.fs.install_stat(self.patch)
         if header.get("real_gpg"):
             b = pgp.RealGpg.get(REPO)
             if b.ok:
@@ -248,6 +249,20 @@ class PgpWorld(EnvelopeWorld):
                     return
         if not must_reject(ent, key, data + b" ", "payload (extended)") or not must_reject(ent, key, data[:-1], "payload (truncated)"):
             return
+        # the same buffer object, changed in place between calls (a caller streaming documents through one bytearray)
+        buf = bytearray(data)
+        for rnd in range(3):
+            o1 = self.calls.raw("verify_gpg_signature", ent, key, buf)
+            if not o1.ok:
+                self.run.violate(("C10", "C02"), "gpg-primitive-wrong", "verify_gpg_signature raised %s on a valid entry over a bytearray payload" % o1.cls,
+                                 "gpg-primitive-wrong:" + o1.cls)
+                return
+            pos = (op.get("off", 0) + 7 * rnd) % len(buf)
+            buf[pos] ^= 0x01
+            if not must_reject(ent, key, buf, "payload buffer changed in place"):
+                return
+            buf[pos] ^= 0x01
+        self.run.probe("inplace_buffer_reuse")
         self.run.libcalls += n
         self.run.rejects += n
         self.run.probe("bit_sweep_flips", n)
